@@ -8,7 +8,7 @@ table = subprocess.check_output([sys.executable, os.path.join(HERE, 'tools', 'se
 TEXT = '''## 9. Seeded changes: which checks catch which
 --------------------------------------------------------------------------------
 
-Eight rounds of seeding were run with fresh sub-agents (the fourth and fifth after the coverage audit of every harness, the sixth after the statefulness audit, the eighth at the end of the session).  Each agent got only the text of one
+Nine rounds of seeding were run with fresh sub-agents (the fourth and fifth after the coverage audit of every harness, the sixth after the statefulness audit, the eighth and the ninth -- twelve properties only, the other eight got a third round of harmless rewrites instead -- at the end of the session).  Each agent got only the text of one
 property and its own scratch git worktree of /repo (nothing from /verif), and had to produce a
 change that breaks the property, keeps the package importable and leaves the repository's test
 results exactly as they were (same 542 passing / 48 failing tests), plus a demonstration program.
@@ -114,6 +114,18 @@ The misses and what was changed (every one is caught now; no check was loosened 
   produce the pre-computed side and are judged as what the signatures were built with.  C18 (signature files above
   1 MiB opened through the low-level h5py API, whose default access mode is read-write): every signature file used was the 257 KiB shipped one and the open-mode recorder did not see `h5py.File(<FileID>)`; stream `history-sigsize` builds signature files above 1, 4 and 16 MiB (also in the latest HDF5 format and with zero padding after the HDF5 data), kills a client process that holds the database open, and the recorder also wraps `h5py.h5f.open`.
 
+* Round 9 (12 properties): 8 of 12 caught at once (C03 C06 C08 C10 C12 C15 C17 C19), 4 missed.  C02 (`jaccarddist_matrix` fills the matrix column by column when the
+  queries are a SignatureArray, the references are not and there are more queries than references, writing column j of
+  the whole matrix instead of column j of the chunk): the matrix function was only ever called with list-type queries
+  and at most three of them; kind `matrix` crosses 5 query containers x 5 reference containers x 6 chunk sizes x
+  `ref_indices` forms x NaN-prefilled `out` over 7 shapes, every cell judged against the specification.  C07
+  (`revcomp` done block-wise above 64 KiB, `view[-0:]` for lengths that are exact multiples of 65536): long reverse
+  complements were sampled at 65535, 65536, 65537 and 131073 bytes only; `rc-ladder` / `rc-ladder-random` run every
+  length m*2^p (m = 1..9, p = 6..22) and m*10^d with n-1 and n+1, and random multiples of random block sizes, as bytes /
+  bytearray / memoryview through the three public entry points.  C09 (distance rows looked up by `QueryInput.label`:
+  two queries of one batch with the same label share a row): every stream gave the queries of a batch distinct labels; stream `query-labels` gives 2-12 different query genomes equal, empty, pooled or swapped labels through `query(inputs=)`, `query_parse(file_labels=)`, the IDs of a `-s` signature file and equal file names in different directories, every position judged against the model's list for the genome at that position.  C16 (genome files inflated by one
+  `zlib.decompress`: only the first member of a multi-member gzip file is read): genome files were only ever written through `gzip.open` (one member; C06 and C08 already had container flavours, C16 did not); stream `cli-gzip-containers` supplies the same genomes as plain files and as gzip containers of seven flavours (gzip(1) header, all header fields, 2-5 members, empty members, BGZF blocks, with / without a `.gz` name) through `-q` / `-r` / `--ql` / `--rl` / `--square` against each other and against the signature file / database of the same genomes.
+
 **Behaviour-preserving rewrites (the opposite experiment).**  A check that alarms on correct code is as
 useless as one that misses a defect, so after round 3 twenty fresh sub-agents (same isolation: the
 property text and a scratch worktree only) each produced a *harmless* maintenance rewrite of the code
@@ -130,7 +142,9 @@ twenty rewrites was made after round 7 whose authors were asked to introduce COR
 properly keyed and invalidated memos (lineage walks, prefix reverse complements, slice arithmetic, archive look-ups,
 a distance-matrix memo keyed by the matrix bytes), per-thread scratch accumulators reset in `finally`, per-call helper
 objects, constant tables, exact fast paths (110 to 290 changed lines each; `harmless2/<id>/`).  All twenty: `equiv.py`
-SAME, check exit 0, no VIOLATION line.  Two things were changed because
+SAME, check exit 0, no VIOLATION line.  A third round of eight (`harmless3/<id>/`, the properties whose harness got new
+sequence / state streams in round 8: C01 C04 C05 C11 C13 C14 C18 C20; 130 to 210 changed lines each, again with correct
+memos, per-call helper objects and per-thread scratch pools) gave the same result: `equiv.py` SAME, check exit 0.  Two things were changed because
 of this experiment, before it was run on all twenty: the syntactic ties of five Python helpers became
 advisory (a rewrite of `chunk_slices` or `index_dtype` would otherwise have been a
 `no-failing-input-found` violation, section 0) and a translator failure is only reported against the
